@@ -2,7 +2,7 @@ use crate::serializer::{StoreRefResult, StoreStringResult};
 use crate::{RefId, StringId};
 use hashbrown::hash_map::Entry;
 use hashbrown::HashMap;
-use std::any::Any;
+use std::any::{Any, TypeId};
 
 #[derive(Default)]
 pub struct State {
@@ -10,7 +10,7 @@ pub struct State {
     ids_by_string: HashMap<String, StringId>,
     last_string_id: StringId,
     refs_by_id: HashMap<RefId, *const dyn Any>,
-    ids_by_ref: HashMap<*const dyn Any, RefId>,
+    ids_by_ref: HashMap<(*const (), TypeId), RefId>,
     last_ref_id: RefId,
 }
 
@@ -37,7 +37,12 @@ impl State {
     pub fn store_ref(&mut self, value: &impl Any) -> StoreRefResult {
         #[cfg(desert_verif)]
         crate::verif::point("State::store_ref");
-        match self.ids_by_ref.entry(value) {
+        // An object is identified by its address and its type. The vtable half of a
+        // `*const dyn Any` must not take part: the same type can have several vtables (one per
+        // crate or codegen unit that makes the cast), so comparing wide pointers would treat one
+        // object offered from two places as two objects.
+        let key = (value as *const _ as *const (), Any::type_id(value));
+        match self.ids_by_ref.entry(key) {
             Entry::Occupied(entry) => StoreRefResult::RefAlreadyStored { id: *entry.get() },
             Entry::Vacant(entry) => {
                 self.last_ref_id.next();
